@@ -594,6 +594,11 @@ namespace bluetoe {
                     return;
                 }
             }
+
+            // An indication that was taken from the queue but is not transmitted (client not subscribed, value not
+            // readable, no room in the output buffer) will never be confirmed by the client: do not wait for it
+            if ( pending.first == details::notification_queue_entry_type::indication )
+                connection.indication_confirmed();
         }
 
         out_size = 0;
